@@ -110,13 +110,13 @@ static void ep_curve_set_map(void) {
 				fp_set_dig(ctx->ep_map_u, 0);
 				do {
 					fp_add_dig(ctx->ep_map_u, ctx->ep_map_u, 1);
-					/* Check that g(b/ua) = u^3 + a * u + b is square*/
+					/* Check that g(b/ua) = (b/ua)^3 + a * (b/ua) + b is square. */
 					fp_mul(c1, ctx->ep_a, ctx->ep_map_u);
 					fp_inv(c1, c1);
 					fp_mul(c1, c1, ctx->ep_b);
 					fp_sqr(c0, c1);
 					fp_add(c0, c0, ctx->ep_a);
-					fp_mul(c0, c0, ctx->ep_map_u);
+					fp_mul(c0, c0, c1);
 					fp_add(c0, c0, ctx->ep_b);
 				} while (fp_is_sqr(ctx->ep_map_u) || !fp_is_sqr(c0));
 #ifdef EP_CTMAP
